@@ -35,4 +35,13 @@ CHECKS = {
         ],
         assumptions=SIM_ASSUMPTIONS,
     ),
+    "C16": dict(
+        level="model_checking",
+        rule="target (status subresource(2) x labels k1,k2 (6) x annotations (6) x status(2) x foreign finalizer(2)) x response (label map over k1,k3[,k2 thorough] in {unnamed,value,null} x annotation map likewise x status {null,equal,different}) x mode {no finalize hook, finalize hook+live, finalizing, finalizing+finalized} x cache fresh/stale; "
+             "plus selector table: label selector kind(4) x annotation selector kind(4) x matches(2x2) x leftover finalizer(2) x finalize hook(2); every case is distinct and runs one real sync",
+        units=[
+            dict(pkg=DECORATOR, test="TestVerifC16", shards=dict(quick=16, thorough=16), budget=dict(quick=600, thorough=3000)),
+        ],
+        assumptions=SIM_ASSUMPTIONS + ["the sim prunes null-valued fields of custom resources like a structural-schema CRD does"],
+    ),
 }
